@@ -34,6 +34,7 @@ UNIT_DEFAULT_PROPS["U17"] = ["C08"]
 UNIT_DEFAULT_PROPS["U18"] = ["C09"]
 UNIT_DEFAULT_PROPS["U19"] = ["C09"]
 UNIT_DEFAULT_PROPS["U15"] = ["C02"]
+UNIT_DEFAULT_PROPS["U20"] = ["C04"]
 
 RUNTIME = ["U6", "U6b", "U7", "U8"] + U9
 # every unit of the run-time side: setup, queuer, stream poll, item closures, prologues, options builder
@@ -44,12 +45,12 @@ RUNTIME_ALL = ["U6", "U6b", "U7", "U8"] + U9 + U16 + ["U17"]
 # a listed unit that is tagged for OTHER properties makes this property UNDECIDED (foreign failure) and starts the
 # bounded native search, instead of being ignored.
 PROPS = {
-    "C01": {"units": ["U2", "U3", "U4", "U15"] + RUNTIME_ALL},
-    "C02": {"units": ["U3", "U4", "U15"] + RUNTIME_ALL, "safety_units": ["U6", "U7"]},
-    "C03": {"units": ["U3", "U4", "U15", "U19"] + RUNTIME_ALL},
-    "C14": {"units": ["U4", "U11"], "safety_units": ["U11"]},
+    "C01": {"units": ["U2", "U3", "U4", "U15", "U20"] + RUNTIME_ALL},
+    "C02": {"units": ["U3", "U4", "U15", "U20"] + RUNTIME_ALL, "safety_units": ["U6", "U7"]},
+    "C03": {"units": ["U3", "U4", "U15", "U19", "U20"] + RUNTIME_ALL},
+    "C14": {"units": ["U4", "U11", "U20"], "safety_units": ["U11"]},
     "C15": {"units": RUNTIME_ALL},
-    "C04": {"units": ["U3", "U4", "U15"] + RUNTIME_ALL, "safety_units": ["U6", "U6b", "U7"] + U9 + U16},
+    "C04": {"units": ["U3", "U4", "U15", "U20"] + RUNTIME_ALL, "safety_units": ["U6", "U6b", "U7", "U20"] + U9 + U16},
     "C05": {"units": ["U3", "U4", "U6", "U6b", "U8"], "safety_units": ["U6", "U8"]},
     "C06": {"units": ["U2", "U3", "U4", "U6", "U7", "U8", "U15"]},
     "C07": {"units": ["U10b", "U18"] + RUNTIME_ALL},
@@ -57,10 +58,10 @@ PROPS = {
     "C09": {"units": ["U10", "U10b", "U18", "U19"] + RUNTIME_ALL, "safety_units": ["U10", "U10b", "U18", "U19"]},
     "C20": {"units": RUNTIME_ALL},
     "C10": {"units": RUNTIME_ALL},
-    "C11": {"units": ["U1", "U2", "U3", "U4", "U5", "U19"], "safety_units": ["U1", "U2", "U3", "U4", "U5"]},
+    "C11": {"units": ["U1", "U2", "U3", "U4", "U5", "U19", "U20"], "safety_units": ["U1", "U2", "U3", "U4", "U5"]},
     "C12": {"units": ["U1", "U2", "U4", "U5", "U12"], "safety_units": ["U12"]},
-    "C13": {"units": ["U1", "U4"]},
-    "C16": {"units": ["U5"], "safety_units": ["U5"]},
+    "C13": {"units": ["U1", "U4", "U20"]},
+    "C16": {"units": ["U5", "U20"], "safety_units": ["U5"]},
     "C17": {"units": ["U13"], "safety_units": ["U13"]},
     "C18": {"units": ["U1", "U2", "U3", "U4"]},
     "C19": {"units": []},
